@@ -335,7 +335,7 @@ def build(cfg):
         level_params['nsweeps'] = [cfg['nsweeps']] * (L - 1) + [1]
     else:
         level_params['nsweeps'] = cfg['nsweeps']
-    sweeper_params = {'quad_type': 'RADAU-RIGHT', 'num_nodes': nodes if L > 1 else nodes[0], 'QI': 'LU'}
+    sweeper_params = {'quad_type': cfg.get('quad_type', 'RADAU-RIGHT'), 'num_nodes': nodes if L > 1 else nodes[0], 'QI': 'LU'}
     problem_params = {'lambdas': np.array([-1.0 + 0.5j, -0.3]), 'u0': 1.0}
     description = {
         'problem_class': CountingProblem,
